@@ -60,3 +60,212 @@ Proof.
     apply set_if_consistent_ok in H. rewrite Hs in H. destruct H as [H|H]; [discriminate|].
     inversion H. congruence.
 Qed.
+
+(** * Setters with a range check *)
+Lemma contains_spec lo hi v : contains lo hi v = true <-> lo <= v <= hi.
+Proof. unfold contains. lia. Qed.
+
+Lemma set_checked_out f lo hi cast p v :
+  ~ (lo <= v <= hi) -> set_checked f lo hi cast p v = (p, Err OutOfRange).
+Proof.
+  intros H. unfold set_checked. destruct (contains lo hi v) eqn:E; [apply contains_spec in E; lia|reflexivity].
+Qed.
+Lemma set_checked_in f lo hi cast p v :
+  lo <= v <= hi -> set_checked f lo hi cast p v = set_if_consistent f p (cast v).
+Proof.
+  intros H. unfold set_checked. destruct (contains lo hi v) eqn:E; [reflexivity|].
+  assert (contains lo hi v = true) by (apply contains_spec; exact H). congruence.
+Qed.
+(** a range-checked setter accepts a value exactly when it is in the documented range and the
+    field is empty or already holds it; a refused call leaves the fields unchanged *)
+Lemma set_checked_ok f lo hi cast p v :
+  snd (set_checked f lo hi cast p v) = Ok tt <->
+  (lo <= v <= hi /\ (pget f p = None \/ pget f p = Some (cast v))).
+Proof.
+  destruct (Z_le_dec lo v) as [H1|H1]; [destruct (Z_le_dec v hi) as [H2|H2]|].
+  - rewrite set_checked_in by lia. rewrite set_if_consistent_ok. intuition.
+  - rewrite set_checked_out by lia. cbn [snd]. split; [discriminate|lia].
+  - rewrite set_checked_out by lia. cbn [snd]. split; [discriminate|lia].
+Qed.
+Lemma set_checked_result f lo hi cast p v :
+  match snd (set_checked f lo hi cast p v) with
+  | Ok _ => lo <= v <= hi /\ fst (set_checked f lo hi cast p v) = pput f (Some (cast v)) p
+  | Err OutOfRange => ~ (lo <= v <= hi) /\ fst (set_checked f lo hi cast p v) = p
+  | Err Impossible => lo <= v <= hi /\ (exists old, pget f p = Some old /\ old <> cast v)
+                      /\ fst (set_checked f lo hi cast p v) = p
+  | Err _ => False
+  end.
+Proof.
+  unfold set_checked. destruct (contains lo hi v) eqn:E; cbn [negb].
+  - apply contains_spec in E. unfold set_if_consistent. destruct (pget f p) as [old|] eqn:Eo.
+    + destruct (old =? cast v) eqn:E2; cbn [negb fst snd].
+      * split; [exact E|reflexivity].
+      * split; [exact E|]. split; [|reflexivity]. exists old. split; [reflexivity|lia].
+    + cbn [fst snd]. split; [exact E|reflexivity].
+  - cbn [fst snd]. split; [|reflexivity]. intros H. apply contains_spec in H. congruence.
+Qed.
+
+(** the casts of the setters are the identity on the accepted ranges *)
+Lemma as_i32_small v : 0 <= v <= i32_max -> as_i32 v = v.
+Proof. intros H. apply as_i32_id. unfold in_i32, in_range, i32_min, i32_max in *. lia. Qed.
+Lemma as_u32_small v : 0 <= v <= u32_max -> as_u32 v = v.
+Proof. intros H. apply as_u32_id. unfold in_u32, in_range, u32_max in *. lia. Qed.
+
+(** * set_hour: 24-hour clock *)
+Lemma set_hour_no_panic p v : set_hour p v <> Panic /\ set_hour p v <> OutOfFuel.
+Proof.
+  unfold set_hour. destruct (contains 0 11 v) eqn:E1.
+  - cbn [bind]. destruct (set_if_consistent F_hour_div_12 p 0) as [p1 [u|e]]; split; discriminate.
+  - destruct (contains 12 23 v) eqn:E2.
+    + apply contains_spec in E2. rewrite as_u32_small by (unfold u32_max; lia).
+      unfold sub_u32, chk. replace (in_u32 (v - 12)) with true by (unfold in_u32, in_range, u32_max; lia).
+      cbn [bind]. destruct (set_if_consistent F_hour_div_12 p 1) as [p1 [u|e]]; split; discriminate.
+    + cbn [bind]. split; discriminate.
+Qed.
+Lemma set_hour_value p v :
+  set_hour p v =
+  Val (if contains 0 23 v then
+         match set_if_consistent F_hour_div_12 p (v / 12) with
+         | (p1, Err e) => (p1, Err e)
+         | (p1, Ok _) => set_if_consistent F_hour_mod_12 p1 (v mod 12)
+         end
+       else (p, Err OutOfRange)).
+Proof.
+  unfold set_hour. destruct (contains 0 11 v) eqn:E1.
+  - apply contains_spec in E1. replace (contains 0 23 v) with true by (symmetry; apply contains_spec; lia).
+    cbn [bind]. rewrite as_u32_small by (unfold u32_max; lia).
+    replace (v / 12) with 0 by lia. replace (v mod 12) with v by lia.
+    destruct (set_if_consistent F_hour_div_12 p 0) as [p1 [u|e]]; reflexivity.
+  - destruct (contains 12 23 v) eqn:E2.
+    + apply contains_spec in E2. replace (contains 0 23 v) with true by (symmetry; apply contains_spec; lia).
+      rewrite as_u32_small by (unfold u32_max; lia).
+      unfold sub_u32, chk. replace (in_u32 (v - 12)) with true by (unfold in_u32, in_range, u32_max; lia).
+      cbn [bind]. replace (v / 12) with 1 by lia. replace (v mod 12) with (v - 12) by lia.
+      destruct (set_if_consistent F_hour_div_12 p 1) as [p1 [u|e]]; reflexivity.
+    + cbn [bind]. destruct (contains 0 23 v) eqn:E3; [|reflexivity].
+      apply contains_spec in E3.
+      assert (~ (0 <= v <= 11)) by (intros H; apply contains_spec in H; congruence).
+      assert (~ (12 <= v <= 23)) by (intros H'; apply contains_spec in H'; congruence). lia.
+Qed.
+
+(** every setter of the case protocol returns by value for every i64 argument *)
+Lemma apply_setter_no_panic k p v r : apply_setter k p v = Some r -> r <> Panic /\ r <> OutOfFuel.
+Proof.
+  unfold apply_setter. destruct (negb (in_i64 v)); [discriminate|].
+  repeat match goal with
+  | |- (if ?c then _ else _) = Some r -> _ => destruct c
+  end; try discriminate; intros H; inversion H; subst; try (split; discriminate).
+  apply set_hour_no_panic.
+Qed.
+
+(** * resolve_year *)
+Definition i32v (o : option Z) : Prop := match o with Some v => in_i32 v = true | None => True end.
+Definition pivot (r : Z) : Z := if r <? 70 then 2000 + r else 1900 + r.
+
+Lemma div_i32_100 y : in_i32 y = true -> div_i32 y 100 = Val (Z.quot y 100).
+Proof.
+  intros H. unfold div_i32. rewrite div_t_nz by lia. apply chk_in.
+  unfold in_i32, in_range, i32_min, i32_max in *. 
+  lia.
+Qed.
+Lemma rem_i32_100 y : in_i32 y = true -> rem_i32 y 100 = Val (Z.rem y 100).
+Proof.
+  intros H. unfold rem_i32. rewrite rem_t_nz by lia.
+  pose proof (div_i32_100 y H) as D. unfold div_i32 in D. rewrite div_t_nz in D by lia.
+  unfold chk in D. destruct (in_i32 (Z.quot y 100)); [reflexivity|discriminate].
+Qed.
+Lemma quot_rem_nonneg y : 0 <= y -> Z.quot y 100 = y / 100 /\ Z.rem y 100 = y mod 100.
+Proof. intros H. split; [apply Z.quot_div_nonneg; lia|apply Z.rem_mod_nonneg; lia]. Qed.
+
+Ltac ry_start :=
+  unfold resolve_year, contains, ok_or, checked_mul, checked_add, chko, add_i32, chk.
+
+(** never traps on fields of the struct's types *)
+Lemma resolve_year_no_panic y q r : i32v y -> i32v q -> i32v r ->
+  exists res, resolve_year y q r = Val res.
+Proof.
+  intros Hy Hq Hr. destruct y as [yv|], q as [qv|], r as [rv|]; cbn [i32v] in *; ry_start;
+  try rewrite (div_i32_100 _ Hy); try rewrite (rem_i32_100 _ Hy); cbn [bind];
+  repeat match goal with
+  | |- context [if ?c then _ else _] => destruct c eqn:?
+  | |- context [match ?c with Some _ => _ | None => _ end] => destruct c eqn:?
+  end; cbn [bind orb]; try (eexists; reflexivity).
+  all: unfold in_i32, in_range, i32_min, i32_max in *; try lia.
+  all: repeat match goal with H : context [if ?c then _ else _] |- _ => destruct c eqn:? end; lia.
+Qed.
+
+(** a resolved year agrees with every supplied part of the group *)
+Lemma resolve_year_sound y q r Y : i32v y -> resolve_year y q r = Val (Ok (Some Y)) ->
+  (forall v, y = Some v -> Y = v) /\
+  (forall v, q = Some v -> 0 <= Y /\ Y / 100 = v) /\
+  (forall v, r = Some v -> 0 <= Y /\ Y mod 100 = v) /\
+  (y = None -> q = None -> exists v, r = Some v /\ Y = pivot v).
+Proof.
+  intros Hy. destruct y as [yv|], q as [qv|], r as [rv|]; cbn [i32v] in *; ry_start; unfold pivot;
+  try rewrite (div_i32_100 _ Hy); try rewrite (rem_i32_100 _ Hy); cbn [bind];
+  repeat match goal with
+  | |- context [if ?c then _ else _] => destruct c eqn:?
+  end; cbn [bind orb unwrap_or]; intros H; inversion H; subst; clear H.
+  all: try (pose proof (quot_rem_nonneg Y ltac:(lia)) as [Hq Hr]).
+  all: repeat split; intros; try discriminate;
+       repeat match goal with H : Some _ = Some _ |- _ => inversion H; subst; clear H end;
+       try congruence; cbn [unwrap_or] in *; try lia.
+  all: try (eexists; split; [reflexivity|]; destruct (_ <? 70); lia).
+Qed.
+
+Lemma resolve_year_none y q r : resolve_year y q r = Val (Ok None) <-> (y = None /\ q = None /\ r = None).
+Proof.
+  split.
+  - destruct y as [yv|], q as [qv|], r as [rv|]; ry_start; unfold div_i32, rem_i32, div_t, rem_t, chk;
+    repeat match goal with
+    | |- context [if ?c then _ else _] => destruct c eqn:?
+    end; cbn [bind orb]; intros H; try discriminate; auto;
+    repeat match goal with
+    | H : context [if ?c then _ else _] |- _ => destruct c eqn:?
+    end; discriminate.
+  - intros (-> & -> & ->). reflexivity.
+Qed.
+
+(** the parts are those of an actual year [Y] and the group is determinate: the full year, or
+    century plus two-digit year, or the two-digit year alone for 1970..2069 *)
+Definition group_of (Y : Z) (y q r : option Z) : Prop :=
+  (forall v, y = Some v -> v = Y) /\
+  (forall v, q = Some v -> 0 <= Y /\ v = Y / 100) /\
+  (forall v, r = Some v -> 0 <= Y /\ v = Y mod 100).
+Definition determinate (Y : Z) (y q r : option Z) : Prop :=
+  y <> None \/ (q <> None /\ r <> None) \/ (q = None /\ r <> None /\ 1970 <= Y <= 2069).
+
+Lemma resolve_year_complete Y y q r : in_i32 Y = true -> group_of Y y q r -> determinate Y y q r ->
+  resolve_year y q r = Val (Ok (Some Y)).
+Proof.
+  intros HY (Gy & Gq & Gr) D.
+  destruct y as [yv|], q as [qv|], r as [rv|];
+  try (specialize (Gy _ eq_refl)); try (specialize (Gq _ eq_refl)); try (specialize (Gr _ eq_refl)); subst;
+  ry_start; try rewrite (div_i32_100 _ HY); try rewrite (rem_i32_100 _ HY); cbn [bind unwrap_or];
+  try (pose proof (quot_rem_nonneg Y ltac:(lia)) as [Hq Hr]; rewrite ?Hq, ?Hr).
+  all: unfold determinate in D.
+  all: repeat match goal with
+  | |- context [if ?c then _ else _] => destruct c eqn:?
+  end; cbn [bind orb]; try reflexivity.
+  all: unfold in_i32, in_range, i32_min, i32_max in *; try lia.
+  all: try (do 2 f_equal; lia).
+  all: try (exfalso; destruct D as [D|[[D1 D2]|(D1 & D2 & D3)]]; try congruence; lia).
+  all: try (destruct D as [D|[[D1 D2]|(D1 & D2 & D3)]]; try congruence; do 3 f_equal; lia).
+  all: exfalso; repeat match goal with H : context [if ?c then _ else _] |- _ => destruct c eqn:? end; lia.
+Qed.
+
+(** error classes: 'not enough' exactly for a century without year and two-digit year *)
+Lemma resolve_year_error y q r e : resolve_year y q r = Val (Err e) ->
+  (e = NotEnough /\ y = None /\ q <> None /\ r = None) \/
+  ((e = Impossible \/ e = OutOfRange) /\ ~ (y = None /\ r = None)).
+Proof.
+  destruct y as [yv|], q as [qv|], r as [rv|]; ry_start; unfold div_i32, rem_i32, div_t, rem_t, chk;
+  repeat match goal with
+  | |- context [if ?c then _ else _] => destruct c eqn:?
+  end; cbn [bind orb]; intros H;
+  repeat match goal with
+  | H : context [if ?c then _ else _] |- _ => destruct c eqn:?
+  end; inversion H; subst;
+  try (left; repeat split; congruence);
+  right; (split; [auto|intros [? ?]; congruence]).
+Qed.
